@@ -104,9 +104,27 @@ fn overwrite_model_cases<T: Zoo>(ctx: &mut Ctx, rng: &mut Rng) {
     let mut all = vec![]; for f in &base { paths("", f, &mut all); }
     let cover = T::covering(rng);
     let samples: Vec<Val> = cover.iter().map(|v| zoo::to_val(v)).collect();
-    for (path, orig) in all.iter().take(if ctx.thorough { 64 } else { 10 }) {
+    // several overwrites at once: every top-level field, and every top-level field but one, without allow_null_fields:
+    // positions the tracer refuses on its own (unit fields, enums without data) must not matter once they are overwritten
+    for skip in std::iter::once(None).chain((0..base.len()).map(Some)) {
+        let mut o2 = o.clone(); o2.allow_null = false;
+        let chosen: Vec<&Field> = base.iter().enumerate().filter(|(i, _)| Some(*i) != skip).map(|(_, f)| f).collect();
+        let mk = || { let mut opts = o2.to_options(); for f in &chosen { opts = opts.overwrite(f.name.as_str(), json!({"name": f.name, "data_type": "LargeUtf8", "nullable": true})).map_err(|e| e.to_string())?; } Ok::<_, String>(opts) };
+        let ft = guarded(|| Vec::<Field>::from_type::<T>(mk()?).map_err(|e| e.to_string()));
+        let fs = guarded(|| Vec::<Field>::from_samples(&cover, mk()?).map_err(|e| e.to_string()));
+        ctx.count(&format!("overwrite_model:top_level_{}:from_type_{}:from_samples_{}", if skip.is_none() { "all" } else { "all_but_one" }, ft.class(), fs.class()));
+        let ows: Vec<String> = chosen.iter().map(|f| format!("({}, {})", cf::text(&format!("$.{}", f.name)), tg::sfield_coq(&Field { name: f.name.clone(), data_type: DataType::LargeUtf8, nullable: true, metadata: Default::default() }).unwrap())).collect();
+        let coq = format!("{{| c_opts := {}; c_budget := 100; c_overwrites := [{}]; c_ty := {}; c_from_type := {}; c_samples := {}; c_from_samples := {} |}}", o2.coq(), ows.join("; "), T::ty(), res_coq(&ft), cf::list(&samples, arrgen::val_coq), res_coq(&fs));
+        let idx = ctx.add_case(coq, json!({"type": T::NAME, "options": format!("{:?}", o2), "overwrite": "top_level", "skipped": skip, "from_type": match &ft { Out::Ok(f) => format!("Ok({:?})", f), Out::Err(e) => format!("Err({})", e), Out::Panic(p) => format!("Panic({})", p) }}), true);
+        if skip.is_none() { if let Out::Err(e) = &ft { ctx.fail(idx, "overwrite_refused", format!("{}: every top-level field is overwritten, yet from_type fails: {}", T::NAME, e)); } }
+    }
+    let limit = if ctx.thorough { 64 } else { 10 };
+    for (pi, (path, orig)) in all.iter().enumerate() {
         for allow_null in [true, false] {
             for (kind, name, p) in [("exact", orig.name.clone(), path.clone()), ("wrong_name", format!("{}_x", orig.name), path.clone()), ("missing_path", orig.name.clone(), format!("{}.nope", path))] {
+                // every path of the tree is overwritten exactly without allow_null_fields (the overwritten node, or one below it,
+                // may be one the tracer refuses on its own); the other combinations on the first paths only
+                if pi >= limit && !(kind == "exact" && !allow_null) { continue; }
                 let mut o2 = o.clone(); o2.allow_null = allow_null;
                 let replacement = Field { name: name.clone(), data_type: DataType::LargeUtf8, nullable: true, metadata: Default::default() };
                 let mk = || o2.to_options().overwrite(p.as_str(), json!({"name": name, "data_type": "LargeUtf8", "nullable": true})).map_err(|e| e.to_string());
